@@ -239,6 +239,21 @@ def _run_schedule(job):
     return {"ev": evs}
 
 
+IMPL_CFG = """INIT Init
+NEXT Next
+CONSTANTS
+ N = 4
+ L = 2
+ Preds <- MCPreds
+ HashAncestors = %s
+ MaxDepth = %d
+INVARIANT NoMappingError
+INVARIANT ChildIsFilteredParent
+INVARIANT ExclusionsStayWithEvents
+CHECK_DEADLOCK FALSE
+"""
+
+
 def main(tier, seed, replay=None):
     dclab = import_dclab()
     dclab.register_temporary_feature("verif_tmp")
@@ -260,6 +275,19 @@ def main(tier, seed, replay=None):
     ev.assumptions = ["all refreshes go through youngest.rejuvenate()",
                       "range filters are intervals of a monotone feature"]
     q = tier == "quick"
+    # design level: the transcribed algorithm (hfilter.py, mapper.py,
+    # base.py) against the specification's FreshView via a ghost variable
+    impl = tlc.run("MC_HierarchyImpl", IMPL_CFG % ("TRUE", 5 if q else 6),
+                   timeout=3000)
+    ev.add_tlc("MC_HierarchyImpl (parent hash incl. ancestors) N=4 L=2", impl)
+    if not impl.ok:
+        raise tlc.TLCError("HierarchyImpl (as repaired) violates %s\n%s" % (
+            impl.violated, impl.cex))
+    old = tlc.run("MC_HierarchyImpl", IMPL_CFG % ("FALSE", 7), timeout=3000)
+    ev.extra["deviation_model_counterexample"] = old.violated
+    if old.ok:
+        raise tlc.TLCError("HierarchyImpl with the parent hash of the pinned "
+                           "commit no longer yields a counterexample")
     scratch = tlc.scratch_dir("vp_c04_")
     try:
         root_path = scratch / "root.rtdc"
